@@ -121,6 +121,10 @@ fn read_case(io: &Io, bytes: &[u8], label: &str, probes: &mut Probes) -> Option<
     if h % 8 == 0 {
         fs.plan(INP, FilePlan { read: Policy { chunk_max: 1 + (h >> 8) as usize % 7, eintr_pm: if (h >> 16) % 2 == 0 { 100 } else { 0 }, ..Default::default() }, ..Default::default() });
         probes.hit("delivered_in_small_pieces");
+    } else if h % 16 == 1 && bytes.len() > 1 {
+        // the file shrinks while it is being read: its size (seek to end) says `len`, the data ends earlier
+        fs.plan(INP, FilePlan { read: Policy { eof_at: Some((h >> 8) % bytes.len() as u64), ..Default::default() }, ..Default::default() });
+        probes.hit("file_shrank_while_reading");
     }
     let art = || json!({"damage": label, "text": String::from_utf8_lossy(&bytes[..bytes.len().min(6000)]), "text_len": bytes.len()});
     let t0 = thread_cpu_secs();
@@ -188,7 +192,7 @@ impl Check for C11 {
         false
     }
     fn rule(&self) -> String {
-        "One run = one valid LEF text (runs 0..11: the repository's macro.lef and the LEF snippets embedded in lef21's tests; others: G-lef renderings, 1 in 3 with non-ASCII comments/names) and, on it: EVERY prefix (cut at every byte; cuts inside a multi-byte character are delivered as raw bytes), EVERY single-token fault for every token of a harness tokenisation (deleted, duplicated, swapped with its neighbour, replaced by END/MACRO/LAYER/PIN/;/a number/an unterminated string/non-ASCII words, non-ASCII appended/prepended/inserted into names, string literals and comments, a non-ASCII comment line placed before the token; quick tier on texts > 1500 bytes: a seeded 1/4 sample of tokens), plus seeded multi-fault and random-text cases; three scale runs read 64 KiB, 256 KiB and 1 MiB texts (valid, cut, unterminated string, one very long name/number/comment, non-ASCII first line) so that super-linear behaviour trips the watchdog. Each case is stored in SimFs and read by the real LefLibrary::open; one case in eight is delivered in 1..7-byte pieces with EINTR, so multi-byte characters are split across read() calls. evaluations counts cases; non-trivial = damaged text differs from the valid one; distinct = distinct damaged-text digests.".into()
+        "One run = one valid LEF text (runs 0..11: the repository's macro.lef and the LEF snippets embedded in lef21's tests; others: G-lef renderings, 1 in 3 with non-ASCII comments/names) and, on it: EVERY prefix (cut at every byte; cuts inside a multi-byte character are delivered as raw bytes), EVERY single-token fault for every token of a harness tokenisation (deleted, duplicated, swapped with its neighbour, replaced by END/MACRO/LAYER/PIN/;/a number/an unterminated string/non-ASCII words, non-ASCII appended/prepended/inserted into names, string literals and comments, a non-ASCII comment line placed before the token; quick tier on texts > 1500 bytes: a seeded 1/4 sample of tokens), plus seeded multi-fault and random-text cases; three scale runs read 64 KiB, 256 KiB and 1 MiB texts (valid, cut, unterminated string, one very long name/number/comment, non-ASCII first line) and 15 texts that repeat one construct 20 000 times inside one enclosing object (PROPERTY statements in a macro / a pin, pins, ports, rectangles, layers, polygon points, antenna attributes, sites, vias, property definitions, extension tokens, density rectangles, symmetries), so that super-linear behaviour trips the watchdog; one case in sixteen is read from a file that shrinks while being read (end-of-file before the size reported by seek). Each case is stored in SimFs and read by the real LefLibrary::open; one case in eight is delivered in 1..7-byte pieces with EINTR, so multi-byte characters are split across read() calls. evaluations counts cases; non-trivial = damaged text differs from the valid one; distinct = distinct damaged-text digests.".into()
     }
     fn assumptions(&self) -> Vec<String> {
         vec!["the parser performs no I/O after read_to_string, so termination is bounded by CPU time of the reading thread (100 x (50 ms + 1 us/byte)) and the supervisor watchdog (10 s of child CPU time without progress), not by a step counter".into(), "stack overflow / abort are contained by the child process".into(), "exhaustive over the listed fault kinds for the texts explored only".into()]
@@ -238,6 +242,34 @@ impl Check for C11 {
             cases.push(("scale:one-long-name".into(), format!("MACRO {} END", "x".repeat(target)).into_bytes()));
             cases.push(("scale:one-long-number".into(), format!("VERSION 5.{} ;", "8".repeat(target)).into_bytes()));
             cases.push(("scale:nonascii-first-line".into(), format!("# é日本😀\n{}", big).into_bytes()));
+            if inp.index == CORPUS.len() as u64 {
+                // one construct repeated many times inside ONE enclosing object: per-statement work that grows with what
+                // was collected so far (quadratic) trips the watchdog
+                let n = 20_000;
+                let rep = |head: &str, item: &dyn Fn(usize) -> String, tail: &str| -> Vec<u8> {
+                    let mut s = String::from(head);
+                    for i in 0..n {
+                        s.push_str(&item(i));
+                    }
+                    s.push_str(tail);
+                    s.into_bytes()
+                };
+                cases.push(("scale:one-macro-many-PROPERTY".into(), rep("VERSION 5.8 ;\nMACRO m\n", &|i| format!("PROPERTY p{} {} ;\n", i, i), "END m\n")));
+                cases.push(("scale:one-pin-many-PROPERTY".into(), rep("VERSION 5.8 ;\nMACRO m\nPIN a\n", &|i| format!("PROPERTY p{} \"v{}\" ;\n", i, i), "END a\nEND m\n")));
+                cases.push(("scale:one-PROPERTY-many-pairs".into(), rep("VERSION 5.8 ;\nMACRO m\nPROPERTY ", &|i| format!("p{} {} ", i, i), ";\nEND m\n")));
+                cases.push(("scale:one-macro-many-pins".into(), rep("VERSION 5.8 ;\nMACRO m\n", &|i| format!("PIN a{}\nDIRECTION INPUT ;\nEND a{}\n", i, i), "END m\n")));
+                cases.push(("scale:one-pin-many-ports".into(), rep("VERSION 5.8 ;\nMACRO m\nPIN a\n", &|_| "PORT\nLAYER m1 ;\nRECT 0 0 1 1 ;\nEND\n".to_string(), "END a\nEND m\n")));
+                cases.push(("scale:one-layer-many-rects".into(), rep("VERSION 5.8 ;\nMACRO m\nOBS\nLAYER m1 ;\n", &|i| format!("RECT {} 0 {} 1 ;\n", i, i + 1), "END\nEND m\n")));
+                cases.push(("scale:one-obs-many-layers".into(), rep("VERSION 5.8 ;\nMACRO m\nOBS\n", &|i| format!("LAYER m{} ;\nRECT 0 0 1 1 ;\n", i), "END\nEND m\n")));
+                cases.push(("scale:one-polygon-many-points".into(), rep("VERSION 5.8 ;\nMACRO m\nOBS\nLAYER m1 ;\nPOLYGON ", &|i| format!("{} {} ", i, i % 7), ";\nEND\nEND m\n")));
+                cases.push(("scale:one-pin-many-antenna".into(), rep("VERSION 5.8 ;\nMACRO m\nPIN a\n", &|i| format!("ANTENNAGATEAREA {} LAYER m{} ;\n", i, i % 9), "END a\nEND m\n")));
+                cases.push(("scale:many-sites".into(), rep("VERSION 5.8 ;\n", &|i| format!("SITE s{}\nCLASS CORE ;\nSIZE 1 BY 2 ;\nEND s{}\n", i, i), "")));
+                cases.push(("scale:many-vias".into(), rep("VERSION 5.8 ;\n", &|i| format!("VIA v{}\nLAYER m1 ;\nRECT 0 0 1 1 ;\nEND v{}\n", i, i), "")));
+                cases.push(("scale:many-propdefs".into(), rep("VERSION 5.8 ;\nPROPERTYDEFINITIONS\n", &|i| format!("MACRO p{} INTEGER ;\n", i), "END PROPERTYDEFINITIONS\n")));
+                cases.push(("scale:one-extension-many-tokens".into(), rep("VERSION 5.8 ;\nBEGINEXT \"x\" ", &|i| format!("t{} ", i), "ENDEXT\n")));
+                cases.push(("scale:one-density-many-rects".into(), rep("VERSION 5.8 ;\nMACRO m\nDENSITY\nLAYER m1 ;\n", &|i| format!("RECT {} 0 {} 1 0.5 ;\n", i, i + 1), "END\nEND m\n")));
+                cases.push(("scale:symmetry-many".into(), rep("VERSION 5.8 ;\nMACRO m\nSYMMETRY ", &|_| "X Y R90 ".to_string(), ";\nEND m\n")));
+            }
             for (label, bytes) in &cases {
                 let full = format!("scale({} bytes) / {}", bytes.len(), label);
                 if let Some(v) = read_case(&io, bytes, &full, &mut out.probes) {
